@@ -88,6 +88,11 @@ Definition go_len {X} (s : list X) : nat := List.length s.
 (* c.action.optionType: nil for a sub graph *)
 Definition option_type (nd : node) : option N :=
   match n_kind nd with KSub _ => None | KComp ty => Some ty end.
+(* c.action == nil: every node of a compiled graph has an action; c.action.checkOption == nil: only
+   runner.toComposableRunnable (a graph used as a node) installs one *)
+Definition action_nil (nd : node) : bool := false.
+Definition check_nil (nd : node) : bool :=
+  match n_kind nd with KSub _ => false | KComp _ => true end.
 Definition rt_nil (t : option N) : bool := match t with None => true | Some _ => false end.
 (* reflect.TypeOf(v) == t for a non-nil interface value v of dynamic type [tv] *)
 Definition rt_eq (tv : N) (t : option N) : bool :=
